@@ -49,6 +49,20 @@ Definition decl_code (d : dkind) : Z :=
   | DParam => ArgumentDecl | DCatch => CatchDecl
   end.
 
+(* number of identifier occurrences *)
+Fixpoint occurrences (p : prog) : nat :=
+  match p with
+  | Done => O
+  | Ref _ k | PRef _ k | Decl _ _ k => S (occurrences k)
+  | Block b k => occurrences b + occurrences k
+  | Func nm ps b k => (match nm with Some _ => 1 | None => 0 end) + occurrences ps + occurrences b + occurrences k
+  | Arrow ps b k => occurrences ps + occurrences b + occurrences k
+  | ArrowId _ b k => S (occurrences b + occurrences k)
+  | Paren hd k => occurrences hd + occurrences k
+  | For hd b k | Catch hd b k => occurrences hd + occurrences b + occurrences k
+  | Class nm ms k => (match nm with Some _ => 1 | None => 0 end) + occurrences ms + occurrences k
+  end.
+
 Fixpoint linearise (p : prog) : list event :=
   match p with
   | Done => []
@@ -63,10 +77,14 @@ Fixpoint linearise (p : prog) : list event :=
   | ArrowId x b k => EUse x :: EEnter true :: EArrowIdent :: EMarkArgs :: linearise b ++ EExit :: linearise k
   | Paren hd k => EEnter true :: linearise hd ++ EExitUndeclare :: linearise k
   | For hd b k => EEnter false :: linearise hd ++ EMarkFor :: linearise b ++ EExit :: linearise k
-  | Catch hd b k => EEnter false :: linearise hd ++ linearise b ++ EExit :: linearise k
+  | Catch hd b k =>
+      (* the mark follows the catch PARAMETER; for catch { } (hd = Done, no mark in the parser) it is the
+         identity on the state: Proofs.catch_mark_noop *)
+      EEnter false :: linearise hd ++ EMarkCatch :: linearise b ++ EExit :: linearise k
   | Class nm ms k =>
       (match nm with Some c => [EClassExprName c] | None => [] end)
-        ++ EEnter false :: linearise ms ++ EExit :: linearise k
+        ++ EEnter false :: linearise ms
+        ++ (match nm with Some _ => [EClassExprMerge (occurrences ms)] | None => [] end) ++ EExit :: linearise k
   end.
 
 (* the whole program is the body of the module scope, which is never exited (parseModule) *)
@@ -269,20 +287,6 @@ Fixpoint core (p : prog) : bool :=
   | _ => false
   end.
 
-(* number of identifier occurrences *)
-Fixpoint occurrences (p : prog) : nat :=
-  match p with
-  | Done => O
-  | Ref _ k | PRef _ k | Decl _ _ k => S (occurrences k)
-  | Block b k => occurrences b + occurrences k
-  | Func nm ps b k => (match nm with Some _ => 1 | None => 0 end) + occurrences ps + occurrences b + occurrences k
-  | Arrow ps b k => occurrences ps + occurrences b + occurrences k
-  | ArrowId _ b k => S (occurrences b + occurrences k)
-  | Paren hd k => occurrences hd + occurrences k
-  | For hd b k | Catch hd b k => occurrences hd + occurrences b + occurrences k
-  | Class nm ms k => (match nm with Some _ => 1 | None => 0 end) + occurrences ms + occurrences k
-  end.
-
 (* every name that occurs in p *)
 Fixpoint allnames (p : prog) : list Z :=
   match p with
@@ -317,10 +321,10 @@ Fixpoint default_names (ps : prog) : list Z :=
 Definition is_nil (l : list Z) : bool := match l with [] => true | _ => false end.
 
 (* [core_d]: as [core], and the parameter lists of functions and parenthesised arrows may have default values
-   ([pcore_d]): references and nested functions / arrows of the same fragment, provided that
-     - a default value does not mention a parameter declared later in the same list, and
-     - no default value mentions a name that the function body declares
-   (on both, /repo deviates from ECMAScript: resolution_param_defaults_refuted);
+   ([pcore_d]): references and nested functions / arrows of the same fragment, provided that a default value
+   does not mention a parameter declared later in the same list (there /repo deviates from ECMAScript:
+   resolution_param_defaults_refuted); a default value may mention a name that the function body declares (the
+   use is frozen by MarkFuncArgs and no longer adopted by the body's declaration: /repo 6a9c7af);
    class bodies without a class-expression name: methods, field values and computed keys, static blocks
    (a static block is a function scope without parameters, Func None Done b: Proofs.static_block_mark_noop). *)
 Fixpoint core_d (p : prog) : bool :=
@@ -330,9 +334,9 @@ Fixpoint core_d (p : prog) : bool :=
   | Decl d _ k => (match d with DVar | DFun | DLex => true | _ => false end) && core_d k
   | Block b k => core_d b && core_d k
   | Func None ps b k =>
-      pcore_d ps && disjointb (default_names ps) (vardecls b ++ lexdecls b) && core_d b && core_d k
+      pcore_d ps && core_d b && core_d k
   | Arrow ps b k =>
-      pcore_d ps && disjointb (default_names ps) (vardecls b ++ lexdecls b) && core_d b && core_d k
+      pcore_d ps && core_d b && core_d k
   | Catch hd b k => catch_params_only hd && disjointb (headdecls hd) (vardecls b) && core_d b && core_d k
   | Class None ms k => core_d ms && is_nil (lexdecls ms) && is_nil (vardecls ms) && core_d k
   | _ => false
@@ -343,10 +347,10 @@ with pcore_d (ps : prog) : bool :=
   | Decl DParam _ k => pcore_d k
   | Ref x k => negb (mem x (headdecls k)) && pcore_d k
   | Func None a b k =>
-      pcore_d a && disjointb (default_names a) (vardecls b ++ lexdecls b) && core_d b
+      pcore_d a && core_d b
       && disjointb (allnames a ++ allnames b) (headdecls k) && pcore_d k
   | Arrow a b k =>
-      pcore_d a && disjointb (default_names a) (vardecls b ++ lexdecls b) && core_d b
+      pcore_d a && core_d b
       && disjointb (allnames a ++ allnames b) (headdecls k) && pcore_d k
   | Class None ms k =>
       core_d ms && is_nil (lexdecls ms) && is_nil (vardecls ms) && disjointb (allnames ms) (headdecls k) && pcore_d k
@@ -440,10 +444,10 @@ Fixpoint core_x (p : prog) : bool :=
   | Decl d _ k => (match d with DVar | DFun | DLex => true | _ => false end) && core_x k
   | Block b k => core_x b && core_x k
   | Func nm ps b k =>
-      pcore_x ps && disjointb (default_names ps) (vardecls b ++ lexdecls b) && core_x b && core_x k
+      pcore_x ps && core_x b && core_x k
       && (match nm with Some f => negb (mem f (headdecls ps ++ vardecls b ++ lexdecls b)) | None => true end)
   | Arrow ps b k =>
-      pcore_x ps && disjointb (default_names ps) (vardecls b ++ lexdecls b) && core_x b && core_x k
+      pcore_x ps && core_x b && core_x k
   | For hd b k =>
       core_x hd && core_x b && core_x k
       && disjointb (allnames hd) (lexdecls b) && disjointb (vardecls hd) (lexdecls hd ++ lexdecls b)
@@ -457,11 +461,11 @@ with pcore_x (ps : prog) : bool :=
   | Decl DParam _ k => pcore_x k
   | Ref x k => negb (mem x (headdecls k)) && pcore_x k
   | Func nm a b k =>
-      pcore_x a && disjointb (default_names a) (vardecls b ++ lexdecls b) && core_x b
+      pcore_x a && core_x b
       && disjointb (allnames a ++ allnames b) (headdecls k) && pcore_x k
       && (match nm with Some f => negb (mem f (headdecls a ++ vardecls b ++ lexdecls b)) && negb (mem f (headdecls k)) | None => true end)
   | Arrow a b k =>
-      pcore_x a && disjointb (default_names a) (vardecls b ++ lexdecls b) && core_x b
+      pcore_x a && core_x b
       && disjointb (allnames a ++ allnames b) (headdecls k) && pcore_x k
   | Class None ms k =>
       core_x ms && is_nil (lexdecls ms) && is_nil (vardecls ms) && disjointb (allnames ms) (headdecls k) && pcore_x k
